@@ -353,7 +353,7 @@ def own_nodes(fdef):
             todo.append(c)
 
 
-def escapes(fdef, parent):
+def escapes(fdef, parent, _seen=None):
     """the nested function is used by its enclosing function other than
     as the callee of a direct call (returned, stored, passed on): it can
     be called after the activation that created it has returned"""
@@ -365,6 +365,31 @@ def escapes(fdef, parent):
         if isinstance(n, ast.Name) and n.id == fdef.name and isinstance(
                 n.ctx, ast.Load) and id(n) not in called:
             return True
+    # ... or it is used (called included) by another nested function that
+    # itself outlives the activation
+    _seen = _seen if _seen is not None else set()
+    _seen.add(id(fdef))
+    inside = set(id(x) for x in ast.walk(fdef))
+
+    def nested(owner):
+        todo = list(owner.body) if isinstance(owner.body, list) else []
+        while todo:
+            n = todo.pop(0)
+            if isinstance(n, ast.FunctionDef):
+                yield owner, n
+                for pair in nested(n):
+                    yield pair
+                continue
+            if isinstance(n, (ast.ClassDef, ast.Lambda)):
+                continue
+            todo.extend(ast.iter_child_nodes(n))
+    for gparent, g in nested(parent):
+        if id(g) in inside or id(g) in _seen or isinstance(g, ast.Lambda):
+            continue
+        if any(isinstance(x, ast.Name) and x.id == fdef.name and isinstance(
+                x.ctx, ast.Load) for x in ast.walk(g)):
+            if escapes(g, gparent, _seen):
+                return True
     return False
 
 
